@@ -330,3 +330,130 @@ impl CellDriver {
         })
     }
 }
+
+
+// ------------------------------------------------- exact integer gauge driver
+
+/// Integer gauge with exact i64 arithmetic (used next to the ends of the range,
+/// where the f64-valued driver above cannot represent the values).
+#[derive(Clone, Copy, Debug, PartialEq, serde::Serialize, serde::Deserialize)]
+pub enum IOp {
+    Add(i64),
+    Sub(i64),
+    Inc,
+    Dec,
+    Set(i64),
+    Get,
+}
+
+pub struct IntGaugeDriver {
+    pub vec_child: bool,
+    pub start: i64,
+    pub programs: Vec<Vec<IOp>>,
+}
+
+pub enum IntCell {
+    G(IntGauge),
+    V(IntGaugeVec),
+}
+
+impl IntCell {
+    fn with<R>(&self, f: impl FnOnce(&IntGauge) -> R) -> R {
+        match self {
+            IntCell::G(g) => f(g),
+            IntCell::V(v) => f(&v.with_label_values(&["k"])),
+        }
+    }
+}
+
+pub struct IntSpec {
+    pub init: i64,
+}
+
+impl SeqSpec for IntSpec {
+    type State = i64;
+    fn init(&self) -> i64 {
+        self.init
+    }
+    fn apply(&self, st: &i64, call: &Call) -> Option<i64> {
+        let a = match call.arg {
+            Val::I(a) => a,
+            _ => 0,
+        };
+        match call.name.as_str() {
+            "add" => Some(st.wrapping_add(a)),
+            "set" => Some(a),
+            "get" => {
+                if call.ret == Val::I(*st) {
+                    Some(*st)
+                } else {
+                    None
+                }
+            }
+            _ => None,
+        }
+    }
+}
+
+impl Driver for IntGaugeDriver {
+    type Shared = IntCell;
+    fn name(&self) -> String {
+        format!("IntGauge{} start {} {:?}", if self.vec_child { "VecChild" } else { "" }, self.start, self.programs)
+    }
+    fn threads(&self) -> usize {
+        self.programs.len()
+    }
+    fn setup(&self) -> IntCell {
+        let c = if self.vec_child { IntCell::V(IntGaugeVec::new(Opts::new("g", "h"), &["l"]).unwrap()) } else { IntCell::G(IntGauge::new("g", "h").unwrap()) };
+        c.with(|g| g.set(self.start));
+        c
+    }
+    fn body(&self, t: usize, sh: &IntCell, rec: &Recorder) {
+        for op in &self.programs[t] {
+            match *op {
+                IOp::Add(d) => rec.call("add", Val::I(d), || {
+                    sh.with(|g| g.add(d));
+                    Val::Unit
+                }),
+                IOp::Sub(d) => rec.call("add", Val::I(d.wrapping_neg()), || {
+                    sh.with(|g| g.sub(d));
+                    Val::Unit
+                }),
+                IOp::Inc => rec.call("add", Val::I(1), || {
+                    sh.with(|g| g.inc());
+                    Val::Unit
+                }),
+                IOp::Dec => rec.call("add", Val::I(-1), || {
+                    sh.with(|g| g.dec());
+                    Val::Unit
+                }),
+                IOp::Set(v) => rec.call("set", Val::I(v), || {
+                    sh.with(|g| g.set(v));
+                    Val::Unit
+                }),
+                IOp::Get => rec.call("get", Val::Unit, || Val::I(sh.with(|g| g.get()))),
+            };
+        }
+    }
+    fn epilogue(&self, sh: &IntCell, rec: &Recorder) {
+        rec.call("get", Val::Unit, || Val::I(sh.with(|g| g.get())));
+    }
+    fn check(&self, _sh: &IntCell, x: &Execution) -> Result<String, (String, String)> {
+        match linearizable(&IntSpec { init: self.start }, &x.calls) {
+            Some(_) => Ok(format!("int|{:?}", x.calls.iter().filter(|c| c.name == "get").map(|c| format!("{:?}", c.ret)).collect::<Vec<_>>())),
+            None => Err((
+                format!("gauge:not-linearizable-at-range-end:IntGauge{}", if self.vec_child { "VecChild" } else { "" }),
+                format!("history not linearizable w.r.t. a sequential wrapping i64 gauge starting at {}: {:?}", self.start, x.calls.iter().map(|c| c.show()).collect::<Vec<_>>()),
+            )),
+        }
+    }
+    fn spec(&self) -> serde_json::Value {
+        serde_json::json!({"kind": "intgauge", "vec_child": self.vec_child, "start": self.start, "programs": self.programs})
+    }
+}
+
+impl IntGaugeDriver {
+    pub fn from_spec(v: &serde_json::Value) -> Option<IntGaugeDriver> {
+        Some(IntGaugeDriver { vec_child: v["vec_child"].as_bool()?, start: v["start"].as_i64()?, programs: serde_json::from_value(v["programs"].clone()).ok()? })
+    }
+}
